@@ -1576,6 +1576,14 @@ pub fn generate(r: &mut Rng, cfg: &GenCfg) -> Program {
         g.ins("mov bl, 0", "plain");
         g.ins("div bl", "div0");
         g.tag("div0");
+    } else if cfg.feat.hlt && cfg.feat.jumps && g.r.chance(25) {
+        // the program's last instruction is a hlt that is jumped over, to a label at the very end
+        // of the file: a label that stands for "one past the last instruction"
+        let l = g.label();
+        g.ins(&format!("jmp {}", l), "jump");
+        g.ins("hlt", "hlt");
+        g.raw(&format!("{}:", l));
+        g.tag("label_after_final_hlt");
     } else if cfg.feat.hlt && g.r.chance(60) {
         g.ins("hlt", "hlt");
         g.tag("explicit_hlt");
